@@ -21,7 +21,7 @@ RULE = ("one case = (N from {2,3,4,5,8,17,64,255,1024,4095}, dt log-uniform 1e-1
 ASSUMPTIONS = ["scipy.fft is trusted", "the time step of a grid is its stored times[1]-times[0]",
                "translation tolerance = 1e-10 + 4 eps |offset|/dt * max|f dH/df| (conditioning of dt under the offset)"]
 BUDGET = {"quick": 300, "thorough": 3600}
-KINDS = ["lowpass", "brickwall", "delay", "scalar-only", "unit", "gaussian", "positive-only", "scalar-constant", "smooth", "non-hermitian", "scalar-only-mixed-type", "scalar-only-delay", "scalar-constant-complex"]
+KINDS = ["lowpass", "brickwall", "delay", "scalar-only", "unit", "gaussian", "positive-only", "scalar-constant", "smooth", "non-hermitian", "scalar-only-mixed-type", "scalar-only-delay", "scalar-constant-complex", "stored-table"]
 
 
 def gen_cases(tier, seed):
@@ -123,6 +123,18 @@ def responses(case, dts):
         # a frequency-independent complex gain returned as one number whatever the argument
         t = lambda f: (0.3 + 0.4j) + 0 * np.asarray(f)
         return (lambda f: 0.3 + 0.4j), t, True
+    if kind == "stored-table":
+        # a response that looks its gains up in a table it keeps: the very same complex array object is handed out at every call
+        t = lambda f: 1 / (1 + 1j * np.asarray(f) / fc)
+        store = {}
+
+        def p(f):
+            f = np.asarray(f, float)
+            key = (f.shape, float(f.flat[1]) if f.size > 1 else 0.0, float(f.flat[-1]) if f.size else 0.0)
+            if key not in store:
+                store[key] = np.asarray(t(f), dtype=complex)
+            return store[key]
+        return p, t, True
     if kind == "smooth":
         t = lambda f: (0.5 + 0.5 * np.cos(np.asarray(f) / fc)) * np.exp(1j * np.asarray(f) / (3 * fc))
         return t, t, True
@@ -211,6 +223,16 @@ def run_case(case):
     out_b = run(vals, times=t_b)
     ref_b = ref_filter(vals, float(t_b[1] - t_b[0]), truth, fr_)
     v.close("the same response object re-used on a grid with another step is evaluated at that grid's frequencies", np.max(np.abs(out_b - ref_b)) / sc, tol, N=N, force_real=fr_, dt=dt, dt_second=dt_b)
+    # (3c) a function-backed signal is filtered like the sampled signal with the same values, and scaling it afterwards scales the result
+    if not kind.startswith("scalar-only") and kind != "stored-table" and N >= 2:
+        from pyrex.signals import FunctionSignal
+        tab = {float(x): float(y) for x, y in zip(t, vals)}
+        fsig = FunctionSignal(t, lambda q: np.interp(q, t, vals, left=0, right=0))
+        fsig.filter_frequencies(present, force_real=fr_)
+        fv = np.array(fsig.values)
+        v.close("a function-backed signal is filtered like the sampled signal with the same values", np.max(np.abs(fv - out)) / sc, tol * 4, N=N, force_real=fr_)
+        fsig *= 2.5
+        v.close("scaling a filtered function-backed signal scales the filtered values", np.max(np.abs(np.array(fsig.values) - 2.5 * fv)) / sc, tol * 4, N=N, force_real=fr_)
     # (5) passivity
     if passive:
         v.check(float(np.sum(out ** 2)) <= float(np.sum(vals ** 2)) * (1 + 1e-9) + 1e-300, "|H| <= 1 never increases the energy", ein=float(np.sum(vals ** 2)), eout=float(np.sum(out ** 2)))
